@@ -384,6 +384,7 @@ impl Type {
             let token = token?;
             match token {
                 Token::Byte => Ok(Base::Byte),
+                Token::Boolean => Ok(Base::Boolean),
                 Token::Int16 => Ok(Base::Int16),
                 Token::Uint16 => Ok(Base::Uint16),
                 Token::Int32 => Ok(Base::Int32),
